@@ -41,7 +41,7 @@ type Thread struct {
 	Name     string
 	Daemon   bool // does not keep the execution alive (watcher goroutines, environment threads)
 	Prio     int  // higher runs first in "eager" order
-	wake     chan struct{}
+	wake     handoff // channel (normal build) or pipe invisible to the race detector (-race build)
 	done     bool
 	started  bool
 	ready    func() bool // nil = enabled; else enabled iff ready()
@@ -108,7 +108,7 @@ func Run(prefix []int, eager bool, maxSteps int, mains []func(), names []string)
 	e.aborting = true
 	for _, t := range e.threads {
 		if t.started && !t.done {
-			t.wake <- struct{}{}
+			t.wake.signal()
 		}
 	}
 	// give aborted goroutines a moment to unwind (they must not touch the next execution's state)
@@ -127,12 +127,17 @@ func Run(prefix []int, eager bool, maxSteps int, mains []func(), names []string)
 			time.Sleep(50 * time.Microsecond)
 		}
 	}
+	for _, t := range e.threads {
+		if !t.started || t.done {
+			t.wake.close()
+		}
+	}
 	E = nil
 	return e
 }
 
 func (e *Exec) newThread(name string, daemon bool, prio int, fn func()) *Thread {
-	t := &Thread{ID: len(e.threads), Name: name, Daemon: daemon, Prio: prio, wake: make(chan struct{}, 1), fn: fn}
+	t := &Thread{ID: len(e.threads), Name: name, Daemon: daemon, Prio: prio, wake: newHandoff(), fn: fn}
 	e.threads = append(e.threads, t)
 	return t
 }
@@ -152,7 +157,7 @@ func Go(name string, daemon bool, prio int, fn func()) {
 func (e *Exec) start(t *Thread) {
 	t.started = true
 	go func() {
-		<-t.wake
+		t.wake.wait()
 		defer func() {
 			if p := recover(); p != nil {
 				if _, ok := p.(abortSentinel); !ok {
@@ -258,7 +263,7 @@ func (e *Exec) schedule(from *Thread) *Thread {
 		e.start(next)
 	}
 	if next != from {
-		next.wake <- struct{}{} // last action: from now on the next thread runs
+		next.wake.signal() // last action: from now on the next thread runs
 	}
 	return next
 }
@@ -300,7 +305,7 @@ func Block(key string, ready func() bool) {
 	t.key = key
 	t.ready = ready
 	if next := e.schedule(t); next != t {
-		<-t.wake // parked until chosen again (or until the execution is torn down)
+		t.wake.wait() // parked until chosen again (or until the execution is torn down)
 		if e.aborting {
 			panic(abortSentinel{})
 		}
